@@ -159,6 +159,13 @@ SPEC_SMOOTH.update({
 })
 
 
+# exponentiated Weibull with a small second shape parameter (admissible, unusual): the far lower tail
+# of its quantile function needs log1p; used by C01 together with alpha in {1e-6, 1e-8}
+SPEC_EWLOW = dict(SPEC)
+SPEC_EWLOW.update({"expweibull": [("alpha", "scale", 0.6, 3.0), ("beta", "shape", 0.9, 2.5), ("delta", "shape", 0.3, 0.8)]})
+SPECS = {"smooth": SPEC_SMOOTH, "ewlow": SPEC_EWLOW}
+
+
 def describe(rng, n_dim, cond, families, shapes=None, spec=None):
     """Plain-data description of a random admissible model (JSON-able)."""
     SPEC = spec or globals()["SPEC"]
@@ -223,6 +230,49 @@ def from_description(vc, desc):
 
 def build_model(vc, rng, n_dim, cond, families, shapes=None, spec=None):
     return from_description(vc, describe(rng, n_dim, cond, families, shapes, spec))
+
+
+def change_parameters(model):
+    """Edit the parameters of a model built by from_description IN PLACE (same object): parent
+    scale/location moved, first coefficient of every dependence function x1.25 (all admissible)."""
+    d0 = model.distributions[0]
+    fam = model._verif["dims"][0]["family"]
+    if fam in ("weibull", "expweibull"):
+        d0.alpha = d0.alpha * 1.6
+    elif fam in ("lognormal", "normal"):
+        d0.mu = d0.mu + 0.47
+    elif fam == "gengamma":
+        d0.lambda_ = d0.lambda_ / 1.6
+    elif fam == "lognormfit":
+        d0.mu_norm, d0.sigma_norm = d0.mu_norm * 1.6, d0.sigma_norm * 1.6
+    elif fam == "vonmises":
+        d0.kappa = d0.kappa * 1.6
+    for i in range(1, model.n_dim):
+        if model.conditional_on[i] is None:
+            continue
+        for dep in model.distributions[i].conditional_parameters.values():
+            pars = dict(dep.parameters)
+            k0 = next(iter(pars))
+            pars[k0] = pars[k0] * 1.25
+            dep.parameters = pars
+
+
+def _ss_p3(x, a=0.1, b=1.489, c=0.1901):
+    return a + b * x ** c
+
+
+def _ss_e3(x, a=0.04, b=0.1748, c=-0.2243):
+    return a + b * np.exp(c * x)
+
+
+def seastate_model(vc):
+    """Hs-Tz structure of the predefined DNVGL model (Weibull, LogNormal | Hs) with fit-capable
+    dependence functions whose defaults are the DNVGL parameters"""
+    bounds = [(0, None), (0, None), (None, None)]
+    return vc.GlobalHierarchicalModel([
+        {"distribution": vc.WeibullDistribution(alpha=2.776, beta=1.471, f_gamma=0.0)},
+        {"distribution": vc.LogNormalDistribution(), "conditional_on": 0,
+         "parameters": {"mu": vc.DependenceFunction(_ss_p3, bounds), "sigma": vc.DependenceFunction(_ss_e3, bounds)}}])
 
 
 def param_values(desc, i, given):
